@@ -1,6 +1,7 @@
 """C16 -- memoized functions return what the function returns and never share entries."""
 import itertools
 import os
+import pickle
 
 import fw
 import instr
@@ -63,6 +64,33 @@ def key_id(disk, key):
     return (bytes(k) if not isinstance(k, (str, int, float)) else k, raw)
 
 
+def frozen_args_to_key(base, args, kwargs, typed, ignore):
+    """The pinned release's args_to_key, kept ONLY to delimit the known finding C16-F1: a collision is
+    attributed to it iff the released function collides on the same pair of calls."""
+    args = tuple(arg for index, arg in enumerate(args) if index not in ignore)
+    key = base + args + (None,)
+    if kwargs:
+        kwargs = {k: v for k, v in kwargs.items() if k not in ignore}
+        sorted_items = sorted(kwargs.items())
+        for item in sorted_items:
+            key += item
+    if typed:
+        key += tuple(type(arg) for arg in args)
+        if kwargs:
+            key += tuple(type(value) for _, value in sorted_items)
+    return key
+
+
+def known_collision(c1, c2, typed, ignore):
+    k1 = frozen_args_to_key(('f',), c1[0], dict(c1[1]), typed, ignore)
+    k2 = frozen_args_to_key(('f',), c2[0], dict(c2[1]), typed, ignore)
+    return pickle.dumps(k1) == pickle.dumps(k2)
+
+
+def sig_of_pair(c1, c2, typed, ignore):
+    return 'none_positional' if known_collision(c1, c2, typed, ignore) else 'key_collision'
+
+
 def sig_of(c1, c2, ignore):
     def pos_none(c):
         return any(x is None for i, x in enumerate(c[0]) if i not in ignore)
@@ -96,7 +124,12 @@ def enumerate_keys(ctx, res, max_pos, max_kw, sample=None):
             if len(g) > 1:
                 vs = sorted(g.items(), key=lambda kv: repr(kv[0]))
                 c1, c2 = vs[0][1], vs[1][1]
-                s = sig_of(c1, c2, ign)
+                s = sig_of_pair(c1, c2, typed, ign)
+                # prefer a pair of the group that is NOT explained by the known finding
+                for (va, ca), (vb, cb) in itertools.combinations(vs, 2):
+                    if not known_collision(ca, cb, typed, ign):
+                        c1, c2, s = ca, cb, 'key_collision'
+                        break
                 res.violations.append(fw.Violation(
                     s, 'two calls with different visible arguments share one cache key',
                     {'typed': typed, 'ignore': list(ign), 'call1': [list(map(repr, c1[0])), {k: repr(v) for k, v in c1[1].items()}],
@@ -188,11 +221,21 @@ def wrapper_runs(ctx, res, nhist, hist_len):
             fac, store_len, close = make_target(kind, d, clock)
             counter = {'n': 0}
 
+            falsy = [None, 0, '', False, (), 0.0]
+
+            def result_for(args, kwargs):
+                # every third visible-argument class returns a falsy value (None, 0, '', ...): a wrapper that
+                # tests the cached result for truth or for None would recompute those on every call
+                r = repr(vis(args, kwargs, ign))
+                h = sum(map(ord, r))
+                return falsy[h % len(falsy)] if h % 3 == 0 else r
+
             def raw(*args, **kwargs):
                 counter['n'] += 1
-                return repr(vis(args, kwargs, ign))
+                return result_for(args, kwargs)
             f = fac(expire, typed, ign)(raw)
             stored_by = {}
+            before_store_ok = {}
             clock.set(1000.0)
             last_store = {}
             trace = []
@@ -203,28 +246,32 @@ def wrapper_runs(ctx, res, nhist, hist_len):
                 before = counter['n']
                 got = f(*a, **kw)
                 ran = counter['n'] > before
-                want = repr(vis(a, kw, ign))
+                want = result_for(a, kw)
                 trace.append((a, kw))
                 key = f.__cache_key__(*a, **kw)
                 kid = repr(key)
                 case = {'check': 'wrapper', 'kind': kind, 'typed': typed, 'ignore': list(map(repr, ign)), 'expire': expire,
                         'calls': [[list(map(repr, x)), {k: repr(v) for k, v in y.items()}] for x, y in trace[-6:]]}
                 res.count(['wrap', kind, typed, repr(ign), expire, repr(a), repr(sorted(kw.items())), ran], nontrivial=True)
-                if got != want:
+                if not (got == want and type(got) is type(want)):
                     first = stored_by.get(kid, (a, kw))
-                    res.violations.append(fw.Violation(sig_of(first, (a, kw), ign),
+                    res.violations.append(fw.Violation(sig_of_pair(first, (a, kw), typed, ign),
                                                        'memoized call returned another call\'s result: got %s want %s' % (got, want), case))
                 stores = (expire is None or expire == 'default' or (isinstance(expire, int) and expire > 0))
+                prev = before_store_ok.get(kid)
+                if ran and prev is not None and stores and kind != 'stampede':
+                    # stored earlier by this wrapper: was it still within its expiry time?
+                    ttl = 5 if (isinstance(expire, int) and not isinstance(expire, bool)) else (300 if expire == 'default' else None)
+                    age = clock.now - prev
+                    if ttl is None or age < ttl:
+                        res.violations.append(fw.Violation('repeat_recomputed', 'a repeated call within the expiry time ran the function again (result %r)' % (want,), case))
                 if ran:
                     stored_by.setdefault(kid, (a, kw))
+                    before_store_ok[kid] = clock.now
                     last_store[kid] = clock.now
                 # repeat within ttl must not run f again
                 if not ran and kid not in last_store:
                     res.violations.append(fw.Violation('phantom_hit', 'wrapper served a call that was never computed', case))
-                if ran and kid in last_store and last_store[kid] != clock.now and stores and kind != 'stampede':
-                    ttl = 5 if isinstance(expire, int) else None
-                    # recomputed although stored earlier and not yet expired?
-                    pass
                 if not stores and kind in ('cache', 'fanout', 'django'):
                     if store_len() != 0:
                         res.violations.append(fw.Violation('zero_expire_stored', 'expire<=0 stored an entry', case))
